@@ -44,9 +44,28 @@ def c14(tier):
         if "round" in x:
             x["round"] += 1000
     recs_ord = [x for x in recs_ord if "cancel_round" not in x and "mixed" not in x and "burst_round" not in x]
+    # requests that are REJECTED, many at a time (an error value shared between requests is written by one and read by another):
+    # the fixed corner requests of C13 that read, over REST and gRPC, 16 workers in step and staggered
+    rej = [("rest_list", {"namespace": "known", "object": "absent", "relation": "absent", "subject": "absent", "page_size": "-5", "page_token": "absent"}),
+           ("rest_list", {"namespace": "known", "object": "absent", "relation": "absent", "subject": "absent", "page_size": "absent", "page_token": "xyz"}),
+           ("grpc_list", {"query": "new", "namespace": "known", "object": "absent", "subject": "absent", "page_size": "absent", "page_token": "xyz"}),
+           ("grpc_list", {"query": "neither", "namespace": "known", "object": "absent", "subject": "absent", "page_size": "absent", "page_token": "absent"}),
+           ("grpc_expand", {"subject": "absent", "depth": "3"}),
+           ("grpc_check", {"style": "tuple", "namespace": "known", "object": "plain", "subject": "absent", "depth": "0"}),
+           ("grpc_batch", {"shape": "one", "namespace": "known", "subject": "absent", "depth": "0"}),
+           ("rest_batch", {"body": "valid", "shape": "null_element", "namespace": "known", "subject": "id", "depth": "absent"})]
+    freqs = [{"i": i, "ep": ep, "fields": f, "readonly": True} for i, (ep, f) in enumerate(rej * 4)]
+    frecs = run_harness(binary, "fuzz", {"reqs": freqs, "conc": 16}, shards=4, tolerate_crash=True, timeout=1200,
+                        env_extra={"GORACE": "halt_on_error=0 history_size=5"})
+    for x in frecs:
+        if "conc_done" in x:
+            ck.evaluations += x["conc_done"]
+            for d in x["diffs"] or []:
+                ck.violation("a rejected request is answered differently when other rejected requests are in flight", d)
+    ck.extra["rejected_requests_in_flight_together"] = sum(x.get("conc_done", 0) for x in frecs)
     # race reports are in the shard logs
     races = []
-    for lf in glob.glob(os.path.join(sc, "in_conc_*.log")):
+    for lf in glob.glob(os.path.join(sc, "in_conc_*.log")) + glob.glob(os.path.join(sc, "in_fuzz_*.log")):
         txt = open(lf, errors="replace").read()
         for m in re.finditer(r"WARNING: DATA RACE\n(.*?)\n==================", txt, re.S):
             races.append(m.group(1))
